@@ -220,7 +220,21 @@ impl<Rounds: Unsigned + Default> NewCipher for ChaChaAny<U24, Rounds, X> {
 impl<NonceSize: Unsigned, Rounds, IsX> StreamCipherSeek for ChaChaAny<NonceSize, Rounds, IsX> {
     #[inline]
     fn try_current_pos<T: SeekNum>(&self) -> Result<T, OverflowError> {
-        unimplemented!()
+        // Blocks produced so far = total blocks - blocks left; `fresh` marks the untouched
+        // 2^64-block stream. `have` is the unread tail of the current block, or (negative) the
+        // offset into a block that has not been generated yet.
+        let total: u128 = if NonceSize::U32 == 12 {
+            u128::from(SMALL_LEN)
+        } else {
+            1 << 64
+        };
+        let left = if self.state.fresh {
+            total
+        } else {
+            u128::from(self.state.len)
+        };
+        let pos = ((total - left) * u128::from(BLOCK64)) as i128 - i128::from(self.state.have);
+        T::try_from(pos as u128).map_err(|_| OverflowError)
     }
     #[inline(always)]
     fn try_seek<T: SeekNum>(&mut self, pos: T) -> Result<(), LoopError> {
